@@ -7,8 +7,10 @@ mod genvalid;
 mod jobs;
 mod op_misc;
 mod op_trace;
+mod op_transform;
 mod op_validate;
 mod render;
+mod rewrite;
 mod rng;
 mod schemas;
 mod shrink;
@@ -28,6 +30,7 @@ pub struct Case {
     /// free-form information for the replay file / statistics
     pub note: String,
 }
+
 
 fn json_str(s: &str) -> String {
     serde_json::to_string(s).unwrap()
@@ -235,7 +238,22 @@ fn emit(prop: &str, tier: &str, seed: u64, shard: (usize, usize), out: &str, rep
         }
         for e in &c.extra {
             line.push(' ');
-            line.push_str(e);
+            if let Some(h) = e.strip_prefix("(altdoc ") {
+                // a second document given as hex text: hand its parsed AST to the model
+                let text = jobs::unhex(h.trim_end_matches(')'));
+                match graphql_tools::parser::parse_query::<String>(&text) {
+                    Ok(d2) => line.push_str(&format!("(alt {})", sx::document(&d2.into_static()))),
+                    Err(_) => line.push_str("(alt (doc))"),
+                }
+            } else if let Some(h) = e.strip_prefix("(altschema ") {
+                let text = jobs::unhex(h.trim_end_matches(')'));
+                match graphql_tools::parser::parse_schema::<String>(&text) {
+                    Ok(s2) => line.push_str(&format!("(alts {})", sx::schema(&s2.into_static()))),
+                    Err(_) => line.push_str("(alts (sdoc))"),
+                }
+            } else {
+                line.push_str(e);
+            }
         }
         line.push(')');
         writeln!(f_cases, "{}", line).unwrap();
